@@ -352,6 +352,7 @@ type renewOutcome struct{ failures, successes int }
 
 func runRenew(t *testing.T, c renewCase) (out renewOutcome, err error) {
 	ca()
+	vk.KeepDumps = true
 	var errs vk.Errs
 	var scratch string
 	if c.Dir {
@@ -433,7 +434,11 @@ func runRenew(t *testing.T, c renewCase) (out renewOutcome, err error) {
 				return false
 			}
 			if got := svid.Certificates[0].SerialNumber.Int64(); got != reqs[last].serial {
-				errs.Failf("after %s: the served SVID has serial %d, the most recently fetched certificate (request %d) has serial %d", step, got, last, reqs[last].serial)
+				dump := ""
+				if len(vk.LastDumps) > 0 {
+					dump = "\nlast accepted quiescence snapshot:\n" + vk.LastDumps[len(vk.LastDumps)-1]
+				}
+				errs.Failf("after %s: the served SVID has serial %d, the most recently fetched certificate (request %d) has serial %d%s", step, got, last, reqs[last].serial, dump)
 				return false
 			}
 			if pk, ok := svid.PrivateKey.Public().(*ecdsa.PublicKey); !ok || !pk.Equal(reqs[last].pub) {
